@@ -37,6 +37,11 @@ CHECKS = {
   text="Proof: sanitize_path is modelled on top of posixpath.normpath and proved to yield only clean absolute paths (and to be idempotent); path_to_filesystem is proved to refuse any component that is a dot-name, ends in '~' or contains a separator; shlex.quote is proved, against a model of POSIX word splitting, to produce exactly one word equal to its input for every string. Tie: the Python functions vs the model on generated hostile strings, the real /bin/sh on shlex.quote output, and requests with hostile text in all six client channels observed by the interposer: no path outside the storage folder is touched, decoys are never served, reserved names never change, the hook executes only the configured command.",
   note="Trusted: Lean kernel, standard axioms; interposer; the model of sh word splitting (validated against /bin/sh each run); POSIX branch only (Windows drive/ADS branches not modelled); case-sensitive file system.",
   ref="5/C06"),
+ "C11": dict(
+  technique="Lean 4 inductive invariants of three lock protocols for an unbounded number of threads (exclusion, bookkeeping = holders, `locked` view, no lost wake-up, deadlock freedom, unreachable 'Guarantees failed', FIFO per key) + step-by-step correspondence of the real lock classes under cooperative stand-ins driven by generated schedules",
+  text="Proof: the condition-variable RwLock, the flock-based RwLock (kernel = correct RW lock) and the keyed LockDict are transition systems at the granularity of their synchronisation operations; invariants are proved by induction over all reachable states for any thread count, and yield mutual exclusion, correct self-view, absence of lost wake-ups and deadlock freedom. Tie: the real classes run with threading/fcntl/open replaced (in the lock modules' namespaces) by cooperative stand-ins; after every scheduled operation counters, mutex owner, per-thread phase, `locked` and the enabled set must equal the model's.",
+  note="Trusted: Lean kernel, standard axioms; the stand-ins re-implement Lock/Condition semantics (CPython's own implementation is not exercised); kernel flock correctness is an assumption; 'eventually' needs a fair scheduler; writer starvation is not excluded by the code and not claimed.",
+  ref="5/C11"),
 }
 
 NA_REASON = "check not built yet (work in progress; see DESIGN.md section 5 for the plan)"
